@@ -621,6 +621,16 @@ pub fn generate(seed: u64, case: u64, max_steps: usize) -> Ran {
     if r.chance(1, 50) {
         balances.push((Arg::Bad, Uint128::new(5)));
     }
+    if r.chance(1, 14) {
+        // empty (or all-zero) initial supply: the cap edge cases 0 and 1 become reachable
+        if r.chance(1, 2) {
+            balances.clear();
+        } else {
+            for b in balances.iter_mut() {
+                b.1 = Uint128::zero();
+            }
+        }
+    }
     let total: u128 = balances.iter().fold(0u128, |a, (_, x)| a.saturating_add(x.u128()));
     let minter = match r.below(10) {
         0 | 1 => None,
